@@ -23,6 +23,9 @@ def to_smt2(hyps, goal):
     return s.to_smt2()
 
 
+RETRY_SEEDS = (11, 23, 37)
+
+
 def _run(cmd, timeout):
     t = time.time()
     try:
@@ -41,6 +44,19 @@ def solve_one(args):
     with open(path, 'w') as f: f.write(text)
     res, out, dt = _run([Z3_BIN, '-smt2', f'-T:{tmo}', path], tmo + 5)
     solver = 'z3-5.1'
+    if res == 'unknown' and tmo >= Z3_TIMEOUT_S:
+        # quantifier instantiation is sensitive to the random seed and to machine load: an obligation the solver proves under
+        # one seed is proved; retry under other seeds before giving up 
+        for seed in RETRY_SEEDS:
+            p3 = path[:-5] + f'.s{seed}.smt2'
+            with open(p3, 'w') as f: f.write(f'(set-option :smt.random_seed {seed})\n(set-option :sat.random_seed {seed})\n' + text)
+            r3, o3, d3 = _run([Z3_BIN, '-smt2', f'-T:{tmo}', p3], tmo + 5)
+            dt += d3
+            try: os.unlink(p3)
+            except OSError: pass
+            if r3 in ('unsat', 'sat'):          # the same solver: both answers count
+                res, out, solver = r3, o3, f'z3-5.1 (seed {seed})'
+                break
     if res in ('unknown', 'error') and use_cvc5 and os.path.exists(CVC5_BIN):
         text2 = '(set-logic ALL)\n' + text
         p2 = path[:-5] + '.cvc5.smt2'
